@@ -23,6 +23,9 @@
 
 using namespace hv;
 
+// round 3b: this file is compiled as TWO translation units (checks/C01.json "sources"): as itself = the run part (real code,
+// oracles, main) and through harness/C01_gen.cpp (#define C01_PART_GEN) = the generator only; the reference `Ref` is in both.
+#ifndef C01_PART_GEN
 // ---- round 3: the macro exercise in this TU (C++, -O1) and in harness/C01_o2.c (C, -O2)
 #define MM_CAT_(a, b) a##b
 #define MM_CAT(a, b) MM_CAT_(a, b)
@@ -33,6 +36,7 @@ extern "C" int c01_o2_widths(char *buf, int cap);
 extern "C" struct dlist_head c01_pm_head, c01_pm_nodes[3];
 extern "C" struct slist_head c01_pm_shead, c01_pm_snodes[2];
 
+#endif
 // ------------------------------------------------------------------ reference
 // The abstract state the property talks about: a family of disjoint cyclic
 // sequences ("rings").  A self-linked node is a ring of one.  Poisoned, dead
@@ -84,6 +88,13 @@ static std::string ids(const std::vector<int> &v)
     return s;
 }
 
+static bool cmp_mode(int mode, int a, int b)
+{
+    if (mode == 1) return a % 3 < b % 3;
+    if (mode == 2) { int d = ((a * 37) & 255) - ((b * 37) & 255); d &= 255; return d >= 128; }
+    return a < b;
+}
+#ifndef C01_PART_GEN
 // ------------------------------------------------------------------ C dlist
 struct CItem { int key; struct dlist_head lnk; };
 static std::vector<CItem *> cn;
@@ -94,8 +105,10 @@ static int cid(struct dlist_head *p)
 }
 static std::string cptr(struct dlist_head *p)
 {
+#if defined(DLIST_POISON1) && defined(DLIST_POISON2)   // internal macro names: optional (round 3b)
     if (p == DLIST_POISON1) return "P1";
     if (p == DLIST_POISON2) return "P2";
+#endif
     int i = cid(p);
     return i < 0 ? "?" : std::to_string(i);
 }
@@ -104,12 +117,6 @@ static bool ckey_less(CItem *a, CItem *b) { return a->key < b->key; }
 // 8-bit counter, (int8_t)(a - b) < 0 (not transitive on the whole circle)
 static bool ckey_mod3(CItem *a, CItem *b) { return a->key % 3 < b->key % 3; }
 static bool ckey_wrap8(CItem *a, CItem *b) { return (int8_t)((uint8_t)(a->key * 37) - (uint8_t)(b->key * 37)) < 0; }
-static bool cmp_mode(int mode, int a, int b)
-{
-    if (mode == 1) return a % 3 < b % 3;
-    if (mode == 2) { int d = ((a * 37) & 255) - ((b * 37) & 255); d &= 255; return d >= 128; }
-    return a < b;
-}
 
 // ------------------------------------------------------------------ objects on two lists at once
 struct TObj { char pad0[24]; struct dlist_head la; int key; char pad1[12]; struct dlist_head lb; };
@@ -131,8 +138,10 @@ static int trid(struct dlist_head *p)
 }
 static std::string ttok(struct dlist_head *p)
 {
+#if defined(DLIST_POISON1) && defined(DLIST_POISON2)
     if (p == DLIST_POISON1) return "P1";
     if (p == DLIST_POISON2) return "P2";
+#endif
     int r = trid(p), n = (int)tobj.size();
     if (r < 0) return "?";
     if (r >= 2 * n) return std::to_string(n + r - 2 * n);
@@ -145,11 +154,19 @@ typedef igris::dlist<XItem, &XItem::lnk> XList;
 static std::vector<XItem *> xn;   // item slots (nullptr = dead)
 static std::vector<XList *> xl;   // lists (nullptr = dead)
 static int xnitems = 0;
+// address of the head node of a list.  The iterator's field `current` is an internal name: when it is renamed or made
+// private the head is found through the layout the header static_asserts (dlist_base is exactly its head node) - round 3b
+template <class L> static igris::dlist_node *xhead_of(L *l)
+{
+    auto e = l->end();
+    if constexpr (requires { e.current; }) return e.current;
+    else return reinterpret_cast<igris::dlist_node *>(static_cast<igris::dlist_base *>(l));
+}
 static igris::dlist_node *xnode(int id)
 {
     if (id < xnitems) return xn[id] ? &xn[id]->lnk : nullptr;
     XList *l = xl[id - xnitems];
-    return l ? l->end().current : nullptr;
+    return l ? xhead_of(l) : nullptr;
 }
 static std::string xptr(igris::dlist_node *p)
 {
@@ -494,10 +511,16 @@ static void oracle_walks(out &o, const std::string &op, int a, int b, const std:
     else if (op == "ccheck_rev") { if (atoi(val.c_str()) != first_return(pv, a, b)) o.fail("dlist_check_reversed != first return time of the backward walk"); }
     else if (op == "ccorrect")
     {
+        // after the repair (round 3b): true iff the forward walk returns to a within 1000 steps AND every node of that
+        // cycle is pointed back at by its successor (= a is on a well-formed ring of at most 1000 nodes)
         int f = first_return(nx, a, 1000), r = first_return(pv, a, 1000);
-        bool want = f >= 0 && r >= 0 && f == r;
-        if ((val == "1") != want) o.fail("dlist_is_correct != (both walks return within 1000 steps after the same number of steps)");
+        bool back = true;
+        if (f >= 0) { int it = a; for (int k = 0; k <= f; k++) { if (pv[nx[it]] != it) back = false; it = nx[it]; } }
+        bool want = f >= 0 && back;
+        if ((val == "1") != want) o.fail("dlist_is_correct != (the forward walk returns within 1000 steps and every visited node is pointed back at by its successor)");
         if (f < 0) o.tag("correct-fwd-fails"); else if (r < 0) o.tag("correct-bwd-fails"); else if (f != r) o.tag("correct-lengths-differ");
+        if (f >= 0 && !back) o.tag("correct-backlink-wrong");
+        if (f >= 0 && !back && r == f) o.tag("correct-backlink-wrong-same-length");
     }
 }
 // two-member objects: every ring of the reference, read from every member
@@ -722,6 +745,53 @@ static void run_op(const std::vector<std::string> &w, const std::string &, out &
             if (toks[k][0] == '?') o.fail("macro #" + std::to_string(k) + " returned a pointer that is no object of the fixture");
         }
         o.tag(tu ? "macros-C-O2" : "macros-C++-O1");
+    }
+    else if (op == "xsplice_same")
+    {
+        // two list heads in ONE ring spliced into each other (theorem splice_same_ring): L holds 1 2 3, the head node of O is
+        // moved in front of item m (m = 0: in front of L's head, i.e. at the tail), then L takes everything from O.
+        // Prose: L ends up with the nodes that followed O's head, then those that followed L's head up to O; O is empty.
+        int m = A(1);
+        XList *L = new XList(), *O = new XList();
+        XItem *it[3];
+        for (int i = 0; i < 3; i++) { it[i] = new XItem(); it[i]->key = i + 1; L->move_back(*it[i]); }
+        xhead_of(O)->move_prev_than(m == 0 ? xhead_of(L) : &it[m - 1]->lnk);
+        L->unlink_and_move_all_nodes_from_other(std::move(*O));
+        std::vector<int> fw, bw, want; int guard = 0;
+        for (auto i = L->begin(); i != L->end() && guard++ < 8; ++i) fw.push_back(i->key);
+        guard = 0;
+        for (auto i = L->rbegin(); i != L->rend() && guard++ < 8; ++i) bw.push_back(i->key);
+        bool ok = L->is_correct() && O->is_correct();
+        val = ids(fw) + " " + ids(bw) + " " + (O->empty() ? "1" : "0") + " " + std::to_string(L->size()) + " " + (ok ? "1" : "0");
+        for (int k = (m == 0 ? 1 : m); k <= 3; k++) want.push_back(k);
+        for (int k = 1; k < m; k++) want.push_back(k);
+        std::vector<int> rwant(want.rbegin(), want.rend());
+        if (fw != want || bw != rwant) o.fail("splice of two heads of one ring: destination = " + ids(fw) + " (backward " + ids(bw) + "), expected " + ids(want));
+        if (!O->empty() || L->size() != 3 || !ok) o.fail("splice of two heads of one ring: source not empty / size / is_correct wrong");
+        for (auto *p : it) delete p;
+        delete L; delete O;
+        o.tag("splice-same-ring");
+    }
+    else if (op == "xcorrect_poke")
+    {
+        // igris::dlist::is_correct() on a hand-corrupted ring (the C++ node's links are public fields): it must RETURN
+        // (the old circular_size() comparison never did on a lasso) and answer "well-formed ring"
+        int m = A(1);
+        XList *L = new XList();
+        XItem *it[3];
+        for (int i = 0; i < 3; i++) { it[i] = new XItem(); it[i]->key = i; L->move_back(*it[i]); }
+        igris::dlist_node *hd = xhead_of(L), *n1 = &it[0]->lnk, *n2 = &it[1]->lnk, *n3 = &it[2]->lnk;
+        if (m == 1) n3->next = n2;
+        else if (m == 2) { hd->prev = n1; n1->prev = n2; n2->prev = n3; n3->prev = hd; }
+        else if (m == 3) n2->prev = hd;
+        else if (m == 4) hd->prev = n1;
+        val = L->is_correct() ? "1" : "0";
+        if ((val == "1") != (m == 0)) o.fail("igris::dlist::is_correct() on a hand-corrupted ring (mode " + std::to_string(m) + ") = " + val);
+        // restore before the destructors unlink the nodes
+        hd->next = n1; n1->next = n2; n2->next = n3; n3->next = hd; hd->prev = n3; n3->prev = n2; n2->prev = n1; n1->prev = hd;
+        for (auto *p : it) delete p;
+        delete L;
+        o.tag(m ? "cpp-correct-corrupt" : "cpp-correct-intact");
     }
     else if (op == "premain")
     {
@@ -1292,6 +1362,8 @@ static void run_op(const std::vector<std::string> &w, const std::string &, out &
     o.result = val + " | " + dump();
 }
 
+void c01_gen(rng &r, const std::string &tier);
+#else
 // ------------------------------------------------------------------ gen
 // The generator keeps its own reference so that it only emits operations whose
 // preconditions hold (Linux-style contract: *_add wants an entry that is in no
@@ -1870,6 +1942,8 @@ static void gen_round3(rng &r, bool th)
 {
     auto S = [](long v) { return std::to_string(v); };
     emit("reset c 2"); emit("widths"); emit("premain");
+    for (int m = 0; m < 5; m++) emit("xcorrect_poke " + std::to_string(m));
+    for (int m = 0; m < 4; m++) emit("xsplice_same " + std::to_string(m));
     for (int i = 0; i < 4; i++) { emit("mmac 0 " + S(i)); emit("mmac 1 " + S(i)); }
     emit("premain");
     // the closed-form ring of the model against the ring the code builds, small enough to be dumped
@@ -1909,9 +1983,14 @@ static void gen(rng &r, const std::string &tier)
     gen_round3(r, th);
 }
 
+void c01_gen(rng &r, const std::string &tier) { gen(r, tier); }
+#endif
+#ifndef C01_PART_GEN
 int main(int argc, char **argv)
 {
-    int rc = main_(argc, argv, gen, run_op);
+    int rc = main_(argc, argv, c01_gen, run_op);
     free_all();
     return rc;
 }
+
+#endif
